@@ -237,8 +237,16 @@ def api_generate(cx: Ctx, op: dict, out_dir: str) -> typing.Dict[str, str]:
         if op.get("lstrip_blocks"):
             kw["lstrip_blocks"] = True
         gen, sgen = create_default_generators(ns, **kw)
+        # Only the generator objects of the LATEST invocation stay alive (that is what "reuse" means: generate_all() again on
+        # the object of the previous invocation). Everything older is dropped and collected like in a long-lived service, so that
+        # the memory of earlier namespace trees and pydsdl types is really reused by later ones.
+        cx.generators.clear()
+        cx.gen_out.clear()
         cx.generators[gkey] = (ns, gen, sgen)
         cx.gen_out[gkey] = out_dir
+        import gc
+
+        gc.collect()
     cx.gen_calls[gkey] = cx.gen_calls.get(gkey, 0) + 1
     _ORDER["seed"] = op.get("order_seed")
     try:
@@ -268,9 +276,17 @@ def cli_generate(cx: Ctx, op: dict, out_dir: str, scratch_in: str) -> typing.Dic
             if rel.split("/")[0] != op["root"] or rel in keep_paths:
                 keep_files[rel] = text
         # the subset lives at the *same* absolute input path (location is frozen): the full set is moved aside
-        moved = in_dir + ".full"
-        os.rename(in_dir, moved)
-        dsdlgen.materialize_files(keep_files, cx.roots, in_dir)
+        # (the harness's own file operations are not part of the invocation: no event is counted, no fault can strike here)
+        seams_prep = getattr(cx, "seams", None)
+        if seams_prep is not None:
+            seams_prep.enabled = False
+        try:
+            moved = in_dir + ".full"
+            os.rename(in_dir, moved)
+            dsdlgen.materialize_files(keep_files, cx.roots, in_dir)
+        finally:
+            if seams_prep is not None:
+                seams_prep.enabled = True
     o = {"lang": op["lang"], "root": op["root"], "lookups": op.get("lookups", []), "out_abs": out_dir}
     if op.get("templates"):
         o["templates"] = op["templates"]
